@@ -68,7 +68,14 @@ template <class M> static void AttributeTeardownDeaths(seqx::Explorer<M> & ex, M
 template <class M> static int RunPart(M & model, const PartSpec & ps, int depth, const verif::Args & args, verif::Result & res, double absDeadline, const verif::ReplayDoc * replay)
 {
    seqx::Explorer<M> ex(model, args, res, ps.name);
-   if (replay) return ex.ReplayFile(*replay);
+   if (replay) {
+      // start-state lists differ between the tiers (thorough is a superset): resolve the start state by its recorded name in the thorough list
+      verif::ReplayDoc d = *replay; const std::string want = d.Str("start_name"); int idx = -1;
+      for (int i = 0; i < model.NumStarts(); i++) if (model.StartName(i) == want) idx = i;
+      if (idx < 0) { fprintf(stderr, "replay file names unknown start state '%s'\n", want.c_str()); return 3; }
+      d.s["start"] = verif::Fmt("%d", idx);
+      return ex.ReplayFile(d);
+   }
    ex.SetDeadline(absDeadline);
    const size_t v0 = res.violations.size();
    {  // every start state is built, checked by the full oracle and torn down in a child of its own, so that a start state that already breaks is a reported case
@@ -127,14 +134,16 @@ int main(int argc, char ** argv)
       used += ps.share;
       const double dl = args.part.empty() ? args.t0 + args.deadline * 0.9 * std::min(1.0, used) : args.t0 + args.deadline * 0.9;
       int r = 0;
-      if (ps.kind == 0)      { HtModel<PlainT, 0> m(ps.mask, ps.startSet, th, layout, ces); r = RunPart(m, ps, depth, args, res, dl, rp); }
-      else if (ps.kind == 1) { HtModel<OKeysT, 1> m(ps.mask, ps.startSet, th, layout, ces); r = RunPart(m, ps, depth, args, res, dl, rp); }
-      else                   { HtModel<OValsT, 2> m(ps.mask, ps.startSet, th, layout, ces); r = RunPart(m, ps, depth, args, res, dl, rp); }
+      const bool mt = th || rp != NULL;   // a replay resolves its start state in the thorough (superset) list
+      if (ps.kind == 0)      { HtModel<PlainT, 0> m(ps.mask, ps.startSet, mt, layout, ces); r = RunPart(m, ps, depth, args, res, dl, rp); }
+      else if (ps.kind == 1) { HtModel<OKeysT, 1> m(ps.mask, ps.startSet, mt, layout, ces); r = RunPart(m, ps, depth, args, res, dl, rp); }
+      else                   { HtModel<OValsT, 2> m(ps.mask, ps.startSet, mt, layout, ces); r = RunPart(m, ps, depth, args, res, dl, rp); }
       if (rp) return r;
    }
    if (rp) { fprintf(stderr, "replay file names unknown part '%s'\n", doc.Str("part").c_str()); return 3; }
    res.observations.push_back("operator-- on an iterator that holds a saved copy of an unlinked entry only drops the copy (the iterator then stands on the entry that FOLLOWED the unlinked one, it does not step back); modelled as observed, the header does not define it");
    res.observations.push_back("ShrinkToFit() on an empty table releases the array and reports the default capacity (7) as GetNumAllocatedItemSlots(); slot counts are only compared for non-empty results");
+   res.observations.push_back("MoveToBefore/MoveToBehind with an absent TARGET key return B_DATA_NOT_FOUND and PutBefore/PutBehind with key == target act like Put; the header names B_DATA_NOT_FOUND only for an absent moved key, so for an absent target only 'is an error, table unchanged' is compared");
    res.observations.push_back("the content of an iterator's saved copy (entry unlinked under the cursor) is read for memory safety but never compared: Clear() overwrites an older saved copy with the entry under the cursor");
    return res.Write(args);
 }
